@@ -188,7 +188,7 @@ func (g *gen) colsOf(pred func(genCol) bool) []genCol {
 func isNum(k string) bool { return numWidth(k) > 0 }
 
 func (g *gen) hasMergeResize(c genCol) bool {
-	return (c.kind == "string" && c.merge == "concat") || (c.kind == "record" && c.merge == "concat")
+	return (c.kind == "string" && c.merge != "") || c.kind == "record"
 }
 
 // writeAction produces one set/merge/bool action for a random column. In the clean stream a merge
